@@ -591,6 +591,7 @@ PROP = Prop(
                       "merged_feature_without_gene_type", "empty_query_result"],
             rule="valid locations, transcripts (+CDS), features, genes, feature collections, annotation collections, variant collections on no parent / chromosome / chunk (incl. chunks that miss or cut the object): every public accessor/method of a registry with in-range and boundary arguments (0, len-1, len, len+1, window == length, zero-length requests, windows at the CDS ends)"),
     ],
+    level="fault_enumeration",
     rule="Outcome must be a documented exception (BioCantorException subclass, ValueError, NotImplementedError; TypeError recorded) or a value that passes the "
          "well-formedness validators. Violation: AttributeError, IndexError, KeyError, RecursionError, UnboundLocalError, NameError, ZeroDivisionError, leaked "
          "StopIteration, or an accepted ill-formed object. Non-trivial: every case (each holds dozens of corruptions / calls).",
